@@ -7,6 +7,9 @@ kinds = {"1": "mixed refactoring PR", "2": "signature reshaping", "3": "method o
 if rnd == "6":
     kinds = {"1": "optional diagnostics hook, off by default", "2": "read/write lock or atomic API refinement", "3": "lookup tables, switches and named predicates",
              "4": "provably equivalent fast paths", "5": "additive API ergonomics", "6": "test-support seams"}
+if rnd == "7":
+    kinds = {"1": "extract-method / inline-method code motion", "2": "control-flow restyling", "3": "data layout clean-up (by-value field groups)",
+             "4": "closures to named functions and back", "5": "de-duplication through a shared helper", "6": "API hygiene (docs, aliases, message text, renames)"}
 if rnd == "5":
     kinds = {"1": "modernisation and idiom clean-up", "2": "additive observability-only feature", "3": "performance-motivated equivalent edits",
              "4": "defensive programming", "5": "code organisation", "6": "error and context plumbing clean-up"}
